@@ -109,6 +109,18 @@ def seq_programs(tier="thorough"):
                     st["tag"] = "main"
                     B.add(st)
                     progs.append(B.build())
+    # ... and after a region that was left through an exception the caller caught (nothing of the region may linger)
+    for o2 in (("lt", "to_bits") if quick else ("lt", "to_bits", "rshift", "invert")):
+        for x in ((1, 2) if quick else (0, 1, 2, 3)):
+            for how in ("zerodiv", "user"):
+                B = gen.Builder("seqexc/%s/%s/%d" % (how, o2, x), "plain", None, {"op": "seqexc_%s" % o2, "kinds": "S", "a": x, "gmode": how})
+                rx, rz, rg = B.opnd(("S", x)), B.opnd(("S", 0)), B.opnd(("SB", 0))
+                bad = {"op": "bin", "name": "floordiv", "a": rx, "b": rz} if how == "zerodiv" else {"op": "raise"}
+                B.add({"op": "try", "body": [{"op": "guarded", "cond": rg, "body": [bad]}]})
+                st = ops[o2](rx)
+                st["tag"] = "main"
+                B.add(st)
+                progs.append(B.build())
     return progs
 
 
